@@ -304,10 +304,21 @@ def hasAttribute (attrs : List String) (target : String) : Bool :=
     | some p => lastSegment p [] == target.toList
     | none => false
 
-/-- `lower_attributes` -/
+mutual
+/-- the text of the tokens of a node except its comment tokens -/
+def Cst.codeText : Cst → String
+  | .node _ cs => Cst.codeTextList cs
+  | .tok k t _ => if k == "Comment" then "" else t
+def Cst.codeTextList : List Cst → String
+  | [] => ""
+  | c :: cs => c.codeText ++ Cst.codeTextList cs
+end
+
+/-- `lower_attributes`: the attribute's node also holds the trivia that follow its closing bracket; the text kept is
+    that of the node's tokens without the comment tokens (since fix 60989c4; before: the node's whole text) -/
 def lowerAttributes (node : Cst) : List String :=
   match child ["ATTRIBUTE_LIST"] node with
-  | some l => (childrenK ["ATTRIBUTE"] l).map Cst.text
+  | some l => (childrenK ["ATTRIBUTE"] l).map Cst.codeText
   | none => []
 
 /-! ### literals: one row per node kind -/
